@@ -33,7 +33,7 @@ def field_op(draw, where):
     dt = draw(st.sampled_from(INT_TYPES if isint else FLOAT_TYPES))
     name = draw(st.sampled_from(['a', 'b', 'c', 'temperature', 'u', 'sigma']))
     coef = draw(st.lists(st.integers(-5, 9), min_size=3, max_size=3)) if isint else \
-        draw(st.lists(st.floats(-1e3, 1e3), min_size=3, max_size=3))
+        draw(st.lists(gen.floats(-1e3, 1e3), min_size=3, max_size=3))
     return {'op': where, 'name': name, 'kind': kind, 'int': isint, 'dtype': dt, 'coef': coef,
             'jax': draw(st.booleans())}
 
@@ -53,7 +53,7 @@ def cases(draw):
         elif k <= 4:
             ops.append(draw(field_op('cell')))
         elif k == 5:
-            ops.append({'op': 'sphere', 'x': draw(st.floats(-10, 10)), 'y': draw(st.floats(-10, 10)), 'r': draw(st.floats(0.001, 5))})
+            ops.append({'op': 'sphere', 'x': draw(gen.floats(-10, 10)), 'y': draw(gen.floats(-10, 10)), 'r': draw(gen.floats(0.001, 5))})
         elif k == 6:
             ne = draw(st.integers(1, 3))
             ops.append({'op': 'edges', 'conn': [[draw(st.integers(0, nv - 1)), draw(st.integers(0, nv - 1))] for _ in range(ne)]})
